@@ -59,7 +59,7 @@ def make_case(rng, method=None):
     if method == 'poisson':
         vkind = gen.pick(rng, ['pos', 'posint'])
     else:
-        vkind = gen.pick(rng, ['normal', 'normal', 'smallint_f', 'int', 'int8'])
+        vkind = gen.pick(rng, ['normal', 'normal', 'smallint_f', 'int', 'int8', 'uint8', 'bool'])   # storage dtypes
     meas = gen.values(rng, (len(cidx), n_ch), vkind)
     container = gen.pick(rng, gen.CONTAINERS)
     case = dict(method=method, n_cond=n_cond, n_ch=n_ch, reps=reps, lkind=lkind, vkind=vkind,
@@ -85,7 +85,7 @@ def degenerate(case):
 
 def sig_of(case, **extra):
     s = dict(method=case['method'], labels=case['lkind'], container=case['container'],
-             reps=case['reps'], values=case['vkind'], narrow_int=case['vkind'] == 'int8',
+             reps=case['reps'], values=case['vkind'], narrow_int=case['vkind'] in ('int8', 'uint8', 'bool'),
              size='small' if case['n_cond'] <= 3 else 'mid')
     s.update(extra)
     return s
@@ -541,7 +541,7 @@ def check_repeat_calls(ctx, case):
     for k, st in enumerate(steps):
         sig = dict(method=st['method'], nodesc=st['nodesc'], remove_mean=st['remove_mean'],
                    step=k, prev=steps[k - 1]['method'] if k else 'none', values=vk,
-                   narrow_int=case['vkind'] == 'int8')
+                   narrow_int=case['vkind'] in ('int8', 'uint8', 'bool'))
         kw = dict(method=st['method'], descriptor=None if st['nodesc'] else 'cond')
         if st['method'] == 'mahalanobis':
             kw['noise'] = prec.copy()
